@@ -235,6 +235,19 @@ CHECKS["C07"] = dict(
     note=COMMON_NOTE + " The hypothesis that a step depends only on the projection (no hidden global state) is what C06's tie establishes. "
          "Trusted additionally: the translator; ASE's JSON codec.")
 
+CHECKS["C01"] = dict(
+    technique="Coq proof over the reals of detailed balance for the model kernels (Proofs/BalanceProofs.v, Props/C01.v, reusing Model/Criteria.v) "
+              "+ statistical exploration of long real runs on analytically solvable systems (two-stage decision rule)",
+    text="PARTIAL. Proved for all parameters: Metropolis detailed balance for any positive weights; 'accept iff u < A' accepts with "
+         "probability min(1,A); the exponents the criteria evaluate are ratios of the target weights (canonical; isobaric with "
+         "V^(N+1) in scaled coordinates; grand-canonical insertion and deletion with V/Lambda^3 and N!); the Poisson weights are "
+         "stationary for the ideal-gas particle-number chain. Cited, not formalised: the ergodic theorem and the analytic averages. "
+         "The real code is sampled: harmonic wells, dipole in a field, ideal gas at constant P and at constant mu (mean, variance, "
+         "histogram, uniform positions and orientations).",
+    ref="§4 C01",
+    note=COMMON_NOTE + " The statement is a limit over infinite histories: the implementation can only be sampled; a violation needs a "
+         "first-stage nomination (|z| > 4.5) AND |z| > 6.5 on an independent run with 4x the steps.")
+
 NA_REASON = "check not built yet in this round (see DESIGN.md §8 order of construction); no weaker technique substituted"
 
 
